@@ -6,6 +6,7 @@ mod vmarket;
 mod gens;
 mod props;
 mod refmath;
+mod svm;
 
 use engine::{Ctx, Tier};
 
@@ -54,6 +55,7 @@ fn main() {
         eprintln!("unknown property {id_arg}");
         std::process::exit(64);
     };
+    engine::capture_stdout();
     let mut ctx = Ctx::new(id, tier, seed, replay);
     run(&mut ctx);
     std::process::exit(ctx.finish());
